@@ -262,9 +262,16 @@ def _c_range(src):
     if "IOPRIO_PRIO_VALUE(" not in body:
         raise NotRecognised("psutil_proc_ioprio_set does not pack with IOPRIO_PRIO_VALUE")
     mm = re.search(r"if\s*\(\s*ioclass\s*<\s*(-?\d+)\s*\|\|\s*ioclass\s*>\s*(-?\d+)\s*\|\|\s*iodata\s*<\s*(-?\d+)"
-                   r"\s*\|\|\s*iodata\s*>\s*(-?\d+)\s*\)\s*\{[^}]*PyExc_ValueError[^}]*return NULL;", head)
+                   r"\s*\|\|\s*iodata\s*>\s*(-?\d+)\s*\)\s*\{([^}]*)\}", head)
     if mm:
-        return tuple(int(x) for x in mm.groups())
+        blk = re.sub(r"\s+", "", mm.group(5))
+        if "PyExc_ValueError" in blk and blk.endswith("returnNULL;"):
+            einval = False
+        elif blk == "errno=EINVAL;returnPyErr_SetFromErrno(PyExc_OSError);":
+            einval = True
+        else:
+            raise NotRecognised("body of the argument check in psutil_proc_ioprio_set")
+        return tuple(int(x) for x in mm.groups()[:4]) + (einval,)
     if re.search(r"\bif\s*\([^)]*(?<!&)\b(ioclass|iodata)\b", head):
         raise NotRecognised("unrecognised argument check in psutil_proc_ioprio_set")
     return None
@@ -297,8 +304,11 @@ def facts(snap, F):
               "IOPRIO_PRIO_MASK/CLASS/DATA/VALUE have the canonical shape and are what ioprio_get/set use")
     F.try_add("ioprioSetRangeCheck", "Option (Int × Int × Int × Int)",
               lambda: extract.lean_opt(_c_range(snap.source("arch/linux/proc.c")),
-                                       lambda t: "(" + ", ".join(extract.lean_int(x) for x in t) + ")"),
+                                       lambda t: "(" + ", ".join(extract.lean_int(x) for x in t[:4]) + ")"),
               "bounds (a, b, c, d) of `if (ioclass < a || ioclass > b || iodata < c || iodata > d)` -> ValueError in psutil_proc_ioprio_set before the packing; none = no such check")
+    F.try_add("ioprioSetRangeRaisesEinval", "Bool",
+              lambda: extract.lean_bool(bool((_c_range(snap.source("arch/linux/proc.c")) or (0, 0, 0, 0, False))[4])),
+              "that argument check raises OSError(EINVAL) (true) or ValueError (false; also when there is no check)")
     F.try_add("ioniceDefaultLevel", "Int", lambda: extract.lean_int(ion()["default"]),
               "`if value is None: value = …` in _pslinux.Process.ionice_set")
     F.try_add("ioniceLevelMin", "Int", lambda: extract.lean_int(ion()["lo"]),
@@ -411,8 +421,10 @@ class Sim:
     def proc_ioprio_set(self, pid, ioclass, iodata):
         pid, c, d = _c_int(pid), _c_int(ioclass), _c_int(iodata)
         if self.native_range is not None:
-            a, b, x, y = self.native_range
+            a, b, x, y, einval = self.native_range
             if c < a or c > b or d < x or d > y:
+                if einval:
+                    raise _oserr(OSError, errno.EINVAL)
                 raise ValueError("ioclass or value out of range")
         v = (c << 13) | d
         v = (v + 2**31) % 2**32 - 2**31          # what this build does on overflow (C17's matter)
